@@ -109,11 +109,11 @@ class Machine(object):
             self.bind[name] = Binding(self.P.fn(name))
         return self.bind[name]
 
-    def evaluate(self, name, st, args=None, depth=0):
+    def evaluate(self, name, st, args=None, depth=0, extra=None):
         """All outcomes of function `name` from canonical state st (dict over STATE + optional BASEF names) with integer
         parameter values `args` {param: int}.  Returns list of dict(ret=, st=, calls=(...), choices=(...), unknown=why|None)."""
         args = args or {}
-        mk = (name, tuple(sorted((k, v) for k, v in st.items())), tuple(sorted(args.items())))
+        mk = (name, tuple(sorted((k, v) for k, v in st.items())), tuple(sorted(args.items())), tuple(sorted((str(k), v) for k, v in (extra or {}).items())))
         if mk in self.memo:
             return self.memo[mk]
         if depth > 6:
@@ -123,6 +123,8 @@ class Machine(object):
         b = self.binding(name)
         env = b.env(st)
         env.update(args)
+        if extra:
+            env.update(extra)
         env["event_debug_logging_mask_"] = 0
         env["event_debug_mode_on_"] = 0
         M = self
@@ -204,11 +206,12 @@ class Machine(object):
             choices = []
             for k_, v in sorted((k_ for k_ in o.env.items() if isinstance(k_[0], tuple) and len(k_[0]) == 3 and k_[0][0] == "#choices"), key=lambda kv: str(kv[0])):
                 choices.extend(v)
-            res.append({"ret": rv, "st": b.read(o.env, list(st.keys()), st), "calls": tuple(calls), "choices": tuple(choices), "unknown": None})
+            res.append({"ret": rv, "st": b.read(o.env, list(st.keys()), st), "calls": tuple(calls), "choices": tuple(choices), "unknown": None,
+                        "env": {k_: o.env.get(k_) for k_ in (extra or {})}})
         # de-duplicate
         seen, out = set(), []
         for r_ in res:
-            k_ = (r_["ret"], tuple(sorted(r_["st"].items())) if r_["st"] else None, r_["calls"], r_["choices"], r_["unknown"])
+            k_ = (r_["ret"], tuple(sorted(r_["st"].items())) if r_["st"] else None, r_["calls"], r_["choices"], r_["unknown"], tuple(sorted((str(a), b_) for a, b_ in r_.get("env", {}).items())))
             if k_ not in seen:
                 seen.add(k_)
                 out.append(r_)
